@@ -1,14 +1,16 @@
 import Proofs.SrcTags
 import Proofs.C14
 /-!
-# Source-level helpers: roots made of nodes that each perform one write
-(texts, and `include` tags whose file renders normally)
+# Source-level helpers: roots made of nodes that each put given bytes through the trim writer
+(texts, `include` tags whose file renders normally, objects printing a value)
 -/
 
-/-- in environment `env` the node does exactly one thing: it writes `b` through the trim writer -/
+/-- in environment `env`, with no right trim pending, the node does exactly one thing: it puts the
+    bytes `b` through the trim writer after the text `B` that was pending — a text or an `include`
+    writes them (`B` goes out, `b` is pending), an object writes them verbatim (`B ++ b` goes out,
+    nothing is pending) -/
 def WritesAt (c : RCtx) (n : Node) (env : Env) (b : Bytes) : Prop :=
-  ∀ tw : TW, (renderNode c n ⟨env, tw⟩).runPure =
-    (tw.buf, .ok (.done, ⟨env, ⟨if tw.trim then trimLeftSpace b else b, false⟩⟩))
+  ∀ B : Bytes, ∃ o p, (renderNode c n ⟨env, ⟨B, false⟩⟩).runPure = (o, .ok (.done, ⟨env, ⟨p, false⟩⟩)) ∧ o ++ p = B ++ b
 
 theorem write_done_run (path : Bytes) (loc : Loc) (b : Bytes) (s : RS) :
     (wrapFailAt path loc (do writeM b; pure Status.done) s).runPure =
@@ -23,9 +25,9 @@ theorem write_done_run (path : Bytes) (loc : Loc) (b : Bytes) (s : RS) :
   · simp only [Prog.bind, Prog.mapFail, Prog.runPure, List.append_nil]
 
 theorem writesAt_text (c : RCtx) (line : Nat) (b : Bytes) (env : Env) : WritesAt c (.text line b) env b := by
-  intro tw
+  intro B
   rw [renderNode]
-  exact write_done_run _ _ b ⟨env, tw⟩
+  exact ⟨B, b, write_done_run _ _ b ⟨env, ⟨B, false⟩⟩, rfl⟩
 
 theorem renderBlockBody_cons (c : RCtx) (n : Node) (ns : List Node) (s : RS) :
     renderBlockBody c (n :: ns) s = (renderNode c n s).bind fun r =>
@@ -49,10 +51,11 @@ theorem renderBlockBody_writes (c : RCtx) (env : Env) : ∀ (nbs : List (Node ×
       List.flatten_nil, List.append_nil]
     cases B <;> simp [Prog.mapFail, Prog.bind, Prog.runPure]
   | (n, b) :: r, B, h => by
-    have hn := h (n, b) (List.mem_cons_self ..) ⟨B, false⟩
-    have ih := renderBlockBody_writes c env r b (fun p hp => h p (List.mem_cons_of_mem _ hp))
-    simp only [Bool.false_eq_true, if_false] at hn
-    simp only [List.map_cons, renderBlockBody_cons, Prog.runPure_bind, hn, ih, List.flatten_cons, List.append_assoc]
+    obtain ⟨o, p, hn, hop⟩ := h (n, b) (List.mem_cons_self ..) B
+    have ih := renderBlockBody_writes c env r p (fun p hp => h p (List.mem_cons_of_mem _ hp))
+    simp only at hn hop
+    simp only [List.map_cons, renderBlockBody_cons, Prog.runPure_bind, hn, ih, List.flatten_cons]
+    rw [← List.append_assoc, hop, List.append_assoc]
 
 theorem runRoot_writes (P : Prims) (O : OutPrims) (cfg : Cfg) (fs : FS) (fuel : Nat) (env : Env) (nbs : List (Node × Bytes))
     (h : ∀ p ∈ nbs, WritesAt (mkCtx P O cfg fs fuel) p.1 env p.2) :
@@ -80,13 +83,16 @@ theorem run_ok_iff (P : Prims) (O : OutPrims) (cfg : Cfg) (fs : FS) (fuel : Nat)
   | unmodelled w => simp [runCompiled]
 
 /-- an `include` tag whose argument is a string literal naming a file that renders normally (as a template
-    of its own, with the includer's variables, at fuel one less) is one write of that output -/
+    of its own, with the includer's variables, at fuel one less) is one verbatim write of that output -/
 theorem writesAt_include (P : Prims) (O : OutPrims) (cfg : Cfg) (fs : FS) (fuel : Nat) (line : Nat) (args name : Bytes) (env : Env)
     (body out : Bytes) (he : parseExprSource args = .ok (.lit (.str name)))
     (hfile : fileSource fs (joinPath (dirPath cfg.path) name) = some body)
     (hbody : run P O cfg fs fuel body line env = .ok out) :
     WritesAt (mkCtx P O cfg fs (fuel + 1)) (.incl line args) env out := by
   obtain ⟨root, hc, hr⟩ := (run_ok_iff P O cfg fs fuel body line env out).mp hbody
-  intro tw
-  rw [include_denotation_mk P O cfg fs fuel line args ⟨env, tw⟩ (.lit (.str name)) name body root out he rfl hfile hc hr]
-  exact write_done_run _ _ out ⟨env, tw⟩
+  intro B
+  rw [include_denotation_mk P O cfg fs fuel line args ⟨env, ⟨B, false⟩⟩ (.lit (.str name)) name body root out he rfl hfile hc hr]
+  refine ⟨B ++ out, [], ?_, by simp⟩
+  simp only [wrapFailAt, M.mapFail, bind, M.bind, pure, M.pure]
+  rw [Prog.runPure_mapFail, Prog.runPure_bind, writeVerbatim_runPure]
+  simp [Prog.runPure]
